@@ -30,7 +30,43 @@ def parseKind (k : String) : Except String EvKind :=
 def parseEvent (j : Json) : Except String Event := do
   pure { ts := ← getInt j "ts", kind := ← parseKind (← getStr j "kind"), sess := ← getStr j "sess" }
 
-def handle (j : Json) : Except String Json := do
+/-- raw operation stream (malformed histories): every step is executed on the current state; a
+    step that raises leaves the state unchanged (as the code does: it raises before mutating) and
+    its error class is reported.
+    request : {"mode":"ops","stations","early","evs":[{"id","st0"}],"choices",
+               "ops":[["plugin",id]|["unplug",id]|["post",[full ids]]]} -/
+def handleOps (j : Json) : Except String Json := do
+  let stations ← (← getArr j "stations").mapM (fun v => v.getStr?)
+  let early ← getBool j "early"
+  let st0s ← (← getArr j "evs").mapM (fun v => do
+    let o ← getOpt v "st0" (fun w => w.getStr?)
+    pure ((← getStr v "id"), o))
+  let ids := st0s.map (·.1)
+  let choices ← (← getArr j "choices").mapM (fun v => v.getNat?)
+  let cs : Nat → Nat := fun k => choices.getD k 0
+  let st0 : Sess → Option Station := fun x => (st0s.lookup x).join
+  let mut s := Net.init stations early st0
+  let mut outs : Array Json := #[]
+  for o in ← getArr j "ops" do
+    let a ← asArr o
+    let op ← (a.getD 0 Json.null).getStr?
+    let st : Step ←
+      if op == "post" then do
+        let fl ← (← asArr (a.getD 1 Json.null)).mapM (fun w => w.getStr?)
+        pure (Step.post (fun x => fl.contains x))
+      else do
+        let x ← (a.getD 1 Json.null).getStr?
+        if op == "plugin" then pure (Step.ev ⟨0, .plugin, x⟩)
+        else if op == "unplug" then pure (Step.ev ⟨0, .unplug, x⟩)
+        else throw s!"unknown op {op}"
+    match s.step cs st with
+    | .error e => outs := outs.push (Json.mkObj [("err", jS e.name), ("snap", jSnap (s.snapshot ids))])
+    | .ok s' =>
+      s := s'
+      outs := outs.push (Json.mkObj [("err", Json.null), ("snap", jSnap (s.snapshot ids))])
+  pure (Json.mkObj [("steps", Json.arr outs), ("arrivals", jList jS s.arrivals)])
+
+def handleRun (j : Json) : Except String Json := do
   let stations ← (← getArr j "stations").mapM (fun v => v.getStr?)
   let early ← getBool j "early"
   let n ← getNat j "periods"
@@ -63,5 +99,10 @@ def handle (j : Json) : Except String Json := do
     ("err", err), ("steps", Json.arr outs), ("final", jSnap (s.snapshot ids)),
     ("arrivals", jList jS s.arrivals),
     ("wf", jB (wellFormedB sessions events)), ("horizon", jN (horizon events))])
+
+def handle (j : Json) : Except String Json :=
+  match getStr j "mode" with
+  | .ok "ops" => handleOps j
+  | _ => handleRun j
 
 def main : IO Unit := runDriver handle
